@@ -4,7 +4,8 @@ import z3
 from vlib.harness import Harness, Exc
 from vlib.zutil import TI, TB, z_and, z_or
 
-GENOMES = {"g1": {"chr1": 4}, "g2": {"chr1": 3, "chr2": 2}, "g3": {"chr1": 2, "chr10": 1, "chr2": 3}, "g1b": {"chr1": 6}}
+GENOMES = {"g1": {"chr1": 4}, "g2": {"chr1": 3, "chr2": 2}, "g3": {"chr1": 2, "chr10": 1, "chr2": 3}, "g1b": {"chr1": 6},
+           "g3x": {"chr1": 2, "chr2": 3, "chr10": 1}}       # g3x: the genome order is NOT the string order of the names ('chr10' < 'chr2')
 
 
 def declare_track(V, skel_runs, sizes, prefix):
